@@ -377,6 +377,11 @@ func main() {
 			if proto == "tcp" {
 				s.send(tmplSet(999, []*entities.InfoElement{u8, str}))
 				s.send(padTo(999, []*entities.InfoElement{u8, str}, 65535))
+				// just above the limit: must be refused (a transmitted message would carry a wrapped length field)
+				for _, total := range []int{65536, 65536 + r.Intn(16), 65551, 65552} {
+					s.send(padTo(999, []*entities.InfoElement{u8, str}, total))
+				}
+				s.send(padTo(999, []*entities.InfoElement{u8, str}, 65530+r.Intn(6)))
 			}
 			s.end()
 			evals += s.evals
